@@ -35,3 +35,13 @@ class Prop(RefProp):
                     out.append(fail('in-args-left-in-context',
                                     f'in-arguments still in context after a normal run: {sorted(set(leaked))}'))
         return out
+
+    def generate(self, rng, n, tier):
+        import gen_pipes
+        cases = []
+        for _ in range(n):
+            case = gen_pipes.gen_case(rng, self.profile)
+            if rng.random() < 0.05:
+                gen_pipes.walrus_shadow(rng, case)
+            cases.append(case)
+        return cases
